@@ -324,6 +324,12 @@ func (r *runner) tierCfg(h string) *TierCfg {
 		base.Skip = base.Skip || t.Skip
 		base.ReverseMaps = base.ReverseMaps || t.ReverseMaps
 	}
+	defer func() {
+		// VERIF_BUDGET_SCALE (development: sweeps run side by side on a loaded machine) multiplies the wall-clock budgets
+		if f, err := strconv.ParseFloat(os.Getenv("VERIF_BUDGET_SCALE"), 64); err == nil && f > 0 {
+			base.BudgetS = int(float64(base.BudgetS) * f)
+		}
+	}()
 	merge(r.cfg.Tiers[r.tier])
 	if hc := r.cfg.Harness[h]; hc != nil {
 		if r.tier == "quick" {
